@@ -276,3 +276,34 @@ def layout_floats(rng, fmt, s, n, f, count):
         b += rng.choice([0, 0, 0, 1, -1, 2, -2])
         out.append(b % (1 << nbits))
     return out
+
+# ---------------------------------------------------------------- transcendental
+MATH_ANY = [((1, 32, 23), (1, 32, 23)), ((1, 64, 32), (1, 64, 32)), ((1, 128, 64), (1, 128, 64)), ((1, 128, 88), (1, 128, 88)),
+            ((1, 64, 48), (1, 64, 48)), ((1, 128, 32), (1, 128, 32)), ((1, 64, 23), (1, 64, 23)), ((1, 32, 23), (1, 64, 32)),
+            ((1, 64, 32), (1, 128, 64)), ((1, 64, 48), (1, 128, 64)), ((0, 64, 32), (1, 128, 64)), ((0, 32, 23), (1, 64, 32))]
+MATH_UNSIGNED_D = [((0, 64, 32), (0, 64, 32)), ((0, 128, 64), (0, 128, 64)), ((0, 32, 23), (0, 32, 23)), ((0, 128, 32), (0, 128, 32)),
+                   ((0, 32, 23), (0, 64, 32))]
+MATH_SIGNED = MATH_ANY[:10]
+TRIG = [(1, 32, 23), (1, 64, 32), (1, 128, 64), (1, 128, 88), (1, 64, 48), (1, 128, 32), (1, 64, 23)]
+
+def math_vals(rng, s, n, f, count, positive=False):
+    """operands for the math functions: extremes, 1 ulp, around 1 and 2, powers of two and neighbours, log-uniform sweep"""
+    lo, hi = rng_range(s, n)
+    one = 1 << f
+    c = {0, 1, 2, 3, hi, hi - 1, lo, lo + 1, one, one + 1, one - 1, 2 * one, 2 * one - 1, 2 * one + 1, 3 * one, one >> 1, (one >> 1) + 1,
+         4 * one, 4 * one - 1, -1, -one, -(one >> 1), 10 * one, 100 * one}
+    for k in range(0, n):
+        p = 1 << k
+        c.update((p, p + 1, p - 1))
+    for _ in range(count):
+        k = rng.randint(1, n)
+        v = rng.getrandbits(k)
+        r = rng.random()
+        if r < 0.3:
+            v = one + rng.randint(-(one >> rng.randint(1, max(1, f))), one >> rng.randint(0, max(1, f - 1)))     # near 1
+        elif r < 0.4:
+            q = rng.randint(0, min(1 << ((n - f) // 2), 1 << 20)); v = q * q * one + rng.randint(-2, 2)               # perfect squares +-
+        if s and rng.random() < (0.0 if positive else 0.3):
+            v = -v
+        c.add(v)
+    return sorted({x for x in c if lo <= x <= hi and (not positive or x >= 0)})
